@@ -214,8 +214,20 @@ pub struct Drain<'a, K, V, S> {
 
 impl<'a, K, V, S> Drain<'a, K, V, S> {
     pub(crate) fn new(cache: &'a mut LruCache<K, V, S>) -> Drain<'a, K, V, S> {
+        let iterator = TakingIterator::new(cache);
+
+        // Mark the cache as empty right away, so that leaking the drain (e.g.
+        // with mem::forget) can at most leak the remaining entries. The
+        // buckets themselves stay allocated for as long as the cache is
+        // mutably borrowed, so the iterator's pointers remain valid.
+
+        cache.seal.get_mut().next = cache.seal;
+        cache.seal.get_mut().prev = cache.seal;
+        cache.current_size = 0;
+        cache.table.clear_no_drop();
+
         Drain {
-            iterator: TakingIterator::new(cache),
+            iterator,
             cache
         }
     }
@@ -240,14 +252,6 @@ impl<'a, K, V, S> Drop for Drain<'a, K, V, S> {
         // Drop all allocated memory of the remaining elements.
 
         for _ in self.by_ref() { }
-
-        // Set the cache as empty.
-
-        self.cache.seal.get_mut().next = self.cache.seal;
-        self.cache.seal.get_mut().prev = self.cache.seal;
-
-        self.cache.current_size = 0;
-        self.cache.table.clear_no_drop();
     }
 }
 
